@@ -319,3 +319,39 @@ for _meta in ("None", "dict"):
                                         "HvsrAzimuthal.update_peaks_bounded": FuncV(_m_upb_az, "HvsrAzimuthal.update_peaks_bounded")},
                               label=f"hvsrpy.hvsr_azimuthal.HvsrAzimuthal.__init__[meta={_meta}]",
                               clauses=["an azimuthal result holds one new per-azimuth object per given pair, built from that pair's curves, in order"]))
+
+# ---------------------------------------------------------------- Psd.__init__ / Psd._check_input (psd.py): the same validation, no peaks
+import copy as _copy
+import contracts.C03 as _C03
+
+
+def _psd_meta_ok(ex, st, a, k, n_):
+    """a new dictionary with the caller's entries (or an empty one); rpsd() builds its Psd objects without metadata"""
+    m = st.heap[st.env["self"].oid].fields.get("meta")
+    given = st.env["meta"]
+    if given is NONE:
+        return z3.BoolVal(isinstance(m, DictV) and not m.items)
+    return z3.BoolVal(isinstance(m, DictV) and m is not given and list(m.items) == list(given.items) and all(m.items[k_] is given.items[k_] for k_ in m.items))
+
+
+PSD_TASKS = []
+_pc = _copy.copy(_C03.CHECK_INPUT)
+_pc.qual = "hvsrpy.psd.Psd._check_input"
+PSD_TASKS.append(FunctionTask(_pc, label="hvsrpy.psd.Psd._check_input", clauses=["a density is a finite non-negative array: anything else is refused"]))
+for _meta in ("None", "dict"):
+    def _psd_inputs(ex, st, _m=_meta):
+        facts = _inputs(1, _m)(ex, st)
+        st.env["self"] = sym_obj(ex, st, "Psd", {}, owner="param:self")
+        return facts
+    c = Contract(qual="hvsrpy.psd.Psd.__init__", params=["self", "frequency", "amplitude", "meta"],
+                 ghost=dict(GHOST, own_storage=FuncV(_curve_own, "own_storage"), meta_ok=FuncV(_psd_meta_ok, "meta_ok"),
+                            named_right=FuncV(lambda ex, st, a, k, n_: z3.BoolVal(not st.env["__misnamed"]), "named_right")),
+                 make_inputs=_psd_inputs,
+                 ensures=["len(self.frequency) == NFQ and forall(i, 0, NFQ, self.frequency[i] == FREQ(i))", "len(self.amplitude) == NFQ and forall(j, 0, NFQ, self.amplitude[j] == AMP1(j))",
+                          "meta_ok()", "own_storage()", "named_right()", "VALID(0) and VALID(1) and NFQ == NCOL"],
+                 raises_only_if={"ValueError": "not VALID(0) or not VALID(1) or NFQ != NCOL"}, modifies=["param:self"],
+                 notes="a density object holds the caller's frequencies and values in storage of its own; equal lengths required")
+    c.conditional_raises = True
+    PSD_TASKS.append(FunctionTask(c, module_env=ENV, registry={"Psd._check_input": _static_check}, label=f"hvsrpy.psd.Psd.__init__[meta={_meta}]",
+                                  clauses=["a Psd holds exactly the frequencies and densities it is given"]))
+ALL_TASKS = TASKS + PSD_TASKS
